@@ -378,7 +378,7 @@ inline OpResult apply_op(int op, Canvas& T, Canvas& O, const int64_t* a, const s
       }
       expect_exc(run_catching([&] { T.img.resize_blit(O.img, x, y, w, h, sx, sy, sw, sh); }, &ewhat), EXC_NONE);
       // independent bilinear reference at the exact rational source position; the result may be the
-      // truncation of a value up to one below it (phosg truncates a double sum)
+      // truncation of a value up to one below it (phosg truncates a double sum) or the value rounded to nearest / up
       std::vector<uint64_t> got = raw_pixels(T.img);
       uint64_t M = T.m.mask();
       for (int64_t yy = 0; yy < h; yy++) {
@@ -397,7 +397,8 @@ inline OpResult apply_op(int op, Canvas& T, Canvas& O, const int64_t* a, const s
           size_t di = static_cast<size_t>((y + yy) * T.m.w + (x + xx)) * 4;
           for (int ch = 0; ch < (T.m.alpha ? 4 : 3); ch++) {
             long double v = c11[ch] * (1 - tx) * (1 - ty) + c21[ch] * tx * (1 - ty) + c12[ch] * (1 - tx) * ty + c22[ch] * tx * ty;
-            int64_t lo = static_cast<int64_t>(floorl(v - 1 - 1e-3L)), hi = static_cast<int64_t>(floorl(v + 1e-3L));
+            // (how the interpolated value becomes an integer - truncated as in /repo, rounded to nearest, rounded up - is not stated)
+            int64_t lo = static_cast<int64_t>(floorl(v - 1 - 1e-3L)), hi = static_cast<int64_t>(ceill(v + 1e-3L));
             if (lo < 0) lo = 0;
             bool ok = false;
             for (int64_t t = lo; t <= hi; t++) ok |= ((static_cast<uint64_t>(t) & M) == got[di + ch]);
